@@ -82,6 +82,12 @@ def target_text(t):
     return ast.unparse(t)
 
 
+def _stmt_match(st, pat):
+    """`pat$` = the statement text is exactly pat; otherwise the statement text starts with pat"""
+    t = ast.unparse(st)
+    return t == pat[:-1] if pat.endswith('$') else t.startswith(pat)
+
+
 def select_expr(func, select):
     """Return the ast expression selected by `select` inside `func`."""
     sel, _, path = select.partition('@')
@@ -105,8 +111,8 @@ def select_expr(func, select):
                 body = getattr(node, fld, None)
                 if not (isinstance(body, list) and body and isinstance(body[0], ast.stmt)):
                     continue
-                ia = [i for i, st in enumerate(body) if ast.unparse(st).startswith(a_txt)]
-                ib = [i for i, st in enumerate(body) if ast.unparse(st).startswith(b_txt)]
+                ia = [i for i, st in enumerate(body) if _stmt_match(st, a_txt)]
+                ib = [i for i, st in enumerate(body) if _stmt_match(st, b_txt)]
                 na += len(ia)
                 nb += len(ib)
                 if ia and ib and ia[0] < ib[0]:
@@ -650,6 +656,13 @@ class Emitter:
                     if ta == 'Z':
                         a = f'(ofZ Nm_ {a})'
                     return f'(n{NP_UNARY[base]} Nm_ {a})', 'T'
+                if base == 'nextafter' and len(n.args) == 2 and not n.keywords and m == 'Z':
+                    # np.nextafter(a, b) on the discrete time grid of the Z models: the neighbour of a towards b
+                    a, ta = self.e(n.args[0])
+                    b, tb = self.e(n.args[1])
+                    if ta != 'Z' or tb != 'Z':
+                        self.fail(n, 'nextafter on non-Z')
+                    return f'(if {b} <? {a} then {a} - 1 else if {a} <? {b} then {a} + 1 else {a})', 'Z'
                 if base in NP_BINARY and len(n.args) == 2 and not n.keywords:
                     a, ta = self.e(n.args[0])
                     b, tb = self.e(n.args[1])
@@ -717,7 +730,7 @@ def binder(args, mode):
     return ' '.join(out)
 
 
-def stmt_skeleton(body, values=False, withs=False):
+def stmt_skeleton(body, values=False, withs=False, trys=False):
     """statement kinds with nesting; docstrings dropped; assignment targets and the test / iterator / raised or
     returned expression text kept, so that an added branch, a re-bound name or a changed guard is visible"""
     out = []
@@ -731,14 +744,14 @@ def stmt_skeleton(body, values=False, withs=False):
             out.append('AugAssign[' + ast.unparse(st.target) + ']'
                        + ('=<' + ast.unparse(st.value) + '>' if values else ''))
         elif isinstance(st, ast.If):
-            s_ = 'If<' + ast.unparse(st.test) + '>(' + stmt_skeleton(st.body, values, withs) + ')'
+            s_ = 'If<' + ast.unparse(st.test) + '>(' + stmt_skeleton(st.body, values, withs, trys) + ')'
             if st.orelse:
-                s_ += 'Else(' + stmt_skeleton(st.orelse, values, withs) + ')'
+                s_ += 'Else(' + stmt_skeleton(st.orelse, values, withs, trys) + ')'
             out.append(s_)
         elif isinstance(st, ast.For):
-            out.append('For<' + ast.unparse(st.target) + ' in ' + ast.unparse(st.iter) + '>(' + stmt_skeleton(st.body, values, withs) + ')')
+            out.append('For<' + ast.unparse(st.target) + ' in ' + ast.unparse(st.iter) + '>(' + stmt_skeleton(st.body, values, withs, trys) + ')')
         elif isinstance(st, ast.While):
-            out.append('While<' + ast.unparse(st.test) + '>(' + stmt_skeleton(st.body, values, withs) + ')')
+            out.append('While<' + ast.unparse(st.test) + '>(' + stmt_skeleton(st.body, values, withs, trys) + ')')
         elif isinstance(st, ast.Return):
             out.append('Return<' + (ast.unparse(st.value) if st.value is not None else '') + '>')
         elif isinstance(st, ast.Raise):
@@ -747,7 +760,19 @@ def stmt_skeleton(body, values=False, withs=False):
             out.append('Expr<' + ast.unparse(st.value) + '>')
         elif withs and isinstance(st, ast.With):
             # opt-in (kernel option descend_with = true): the body of a `with` block belongs to the skeleton
-            out.append('With(' + stmt_skeleton(st.body, values, withs) + ')')
+            out.append('With(' + stmt_skeleton(st.body, values, withs, trys) + ')')
+        elif trys and isinstance(st, ast.Try):
+            # opt-in (kernel option descend_try = true): body, handlers (with their exception type), else and
+            # finally blocks of a `try` statement belong to the skeleton
+            s_ = 'Try(' + stmt_skeleton(st.body, values, withs, trys) + ')'
+            for h in st.handlers:
+                s_ += ('Except<' + (ast.unparse(h.type) if h.type is not None else '') + '>('
+                       + stmt_skeleton(h.body, values, withs, trys) + ')')
+            if st.orelse:
+                s_ += 'Else(' + stmt_skeleton(st.orelse, values, withs, trys) + ')'
+            if st.finalbody:
+                s_ += 'Finally(' + stmt_skeleton(st.finalbody, values, withs, trys) + ')'
+            out.append(s_)
         else:
             out.append(type(st).__name__)
     return ';'.join(out)
@@ -762,7 +787,8 @@ def translate_kernel(k, trees):
     if k['select'] in ('shape', 'shapev'):
         # structural pin (C07): the statement skeleton of the function (statement kinds, nesting, assignment
         # targets, called mutators) must be exactly `expect`; emits the constant `true`.  Fail-closed.
-        skel = stmt_skeleton(func.body, values=(k['select'] == 'shapev'), withs=bool(k.get('descend_with', False)))
+        skel = stmt_skeleton(func.body, values=(k['select'] == 'shapev'), withs=bool(k.get('descend_with', False)),
+                             trys=bool(k.get('descend_try', False)))
         if skel != k.get('expect'):
             raise TranslateError(f"kernel {k['name']}: statement skeleton of {k['func']} is {skel!r}, "
                                  f"kernels pin {k.get('expect')!r}")
